@@ -216,7 +216,7 @@ def rbasex_transform(IM, origin='center', rmax='MIN', order=2, odd=False,
     # construct output (transformed) distributions
     distr = Distributions.Results(np.arange(Rmax + 1), np.array(c),
                                   order, odd,
-                                  _dst.valid)
+                                  _dst.valid.copy())
 
     if out is None:
         return None, distr
